@@ -71,6 +71,7 @@ struct vp_state {
 	vprng_t librng; /* feeds the wrapped random() inside libqb */
 };
 extern struct vp_state vp;
+extern FILE *vp_out;
 
 void vp_init(int argc, char **argv);          /* parses --seed --from --to, installs handlers */
 const char *vp_arg(const char *name, const char *dflt);
